@@ -334,6 +334,115 @@ async fn cookie_cases(addr: SocketAddr, conf: &Conf, out: &Mutex<Vec<Viol>>) -> 
     n
 }
 
+
+/// a cookie signed with `secret`, padded so that the Cookie Response frame carrying it declares exactly `frame_len`
+fn padded_cookie_frame(key: &str, secret: &str, frame_len: usize) -> Option<Vec<u8>> {
+    let now = SystemTime::now().duration_since(UNIX_EPOCH).unwrap().as_secs() as i64;
+    for pad in 0..=frame_len {
+        let body = serde_json::to_vec(&json!({
+            "timestamp": now - 1, "client_addr": "127.0.0.1:1", "user_name": "Cookie_Holder", "id": "116934ee-8b5a-49d4-8b54-af0b4d6dbe5f", "server_address": "h", "server_port": 1,
+            "user_id": "09879557-e479-45a9-b434-a56377674627", "target": "t", "profile_properties": [], "extra": {"pad": "x".repeat(pad)},
+        }))
+        .unwrap();
+        // (a session cookie is plain JSON; an authentication cookie carries its tag in front)
+        let mut payload = if key == "passage:session" { vec![] } else { hmac_sha256(secret.as_bytes(), &body).to_vec() };
+        payload.extend_from_slice(&body);
+        let frame = codec::sb_login_cookie_response(key, Some(&payload));
+        let (l, _) = codec::get_varint(&frame).unwrap();
+        if l as usize == frame_len {
+            return Some(frame);
+        }
+        if l as usize > frame_len {
+            return None;
+        }
+    }
+    None
+}
+
+/// The configured maximum governs every frame of a connection, not only the first: Cookie Responses (session and
+/// authentication, the latter correctly signed) and a configuration-phase plugin message that declare max + 1 and
+/// max + 200 bytes are refused - nothing is granted, the connection ends - while the same frames at exactly max
+/// bytes are taken.
+async fn later_frame_length_cases(addr: SocketAddr, conf: &Conf, out: &Mutex<Vec<Viol>>) -> u64 {
+    let max = conf.max_packet_length as usize;
+    if !(1000..60_000).contains(&max) || !conf.files.is_empty() && conf.files != "yaml" {
+        return 0;
+    }
+    let mut n = 0;
+    for which in ["session-cookie", "auth-cookie", "plugin-message"] {
+        for (len, over) in [(max + 1, true), (max + 200, true), (max, false)] {
+            n += 1;
+            let Ok(mut c) = connect(addr, conf).await else { continue };
+            let p = LoginParams { intent: 3, wait: Duration::from_secs(2), ..Default::default() };
+            let mut o = LoginOutcome { packets: vec![], stage: Stage::Connected, error: None };
+            let replay = json!({"conf": conf, "case": "later-frame-length", "frame": which, "len": len});
+            let sent = match which {
+                "session-cookie" => {
+                    c.login(&p, Stage::Connected, Stage::LoginStartSent, &mut o).await;
+                    padded_cookie_frame("passage:session", "", len)
+                }
+                "auth-cookie" => {
+                    c.login(&p, Stage::Connected, Stage::LoginStartSent, &mut o).await;
+                    let _ = c.send(&codec::sb_login_cookie_response("passage:session", None)).await;
+                    let _ = c.read_packet(Duration::from_secs(2)).await;
+                    padded_cookie_frame("passage:authentication", SECRET, len)
+                }
+                _ => {
+                    c.login(&LoginParams { wait: Duration::from_secs(2), ..Default::default() }, Stage::Connected, Stage::LoginSuccessReceived, &mut o).await;
+                    let _ = c.send(&codec::sb_login_ack()).await;
+                    let head = codec::sb_plugin_message("minecraft:brand", &[]).len();
+                    let mut f = None;
+                    for pad in len.saturating_sub(head + 8)..=len {
+                        let g = codec::sb_plugin_message("minecraft:brand", &vec![0x61; pad]);
+                        if codec::get_varint(&g).map(|x| x.0 as usize) == Ok(len) {
+                            f = Some(g);
+                            break;
+                        }
+                    }
+                    f
+                }
+            };
+            let Some(frame) = sent else { continue };
+            if o.error.is_some() {
+                out.lock().unwrap().push(("login-failed".into(), format!("could not reach the state before the {which} frame: {:?}", o.error), replay));
+                continue;
+            }
+            let _ = c.send(&frame).await;
+            if which == "plugin-message" {
+                // what follows a tolerated plugin message: Client Information, then routing
+                let _ = c.send(&codec::sb_client_information("en_us")).await;
+            }
+            let mut got = vec![];
+            let mut closed = false;
+            loop {
+                match c.read_packet(Duration::from_millis(1200)).await {
+                    Ok(Pkt::KeepAlive { .. }) => {}
+                    Ok(pk) => got.push(pk.kind()),
+                    Err(ReadErr::Eof) | Err(ReadErr::Reset(_)) => {
+                        closed = true;
+                        break;
+                    }
+                    Err(_) => break,
+                }
+                if got.len() > 6 {
+                    break;
+                }
+            }
+            let granted = got.iter().any(|k| matches!(*k, "EncryptionRequest" | "LoginSuccess" | "StoreCookie" | "Transfer" | "LoginCookieRequest"));
+            if over && (granted || !closed) {
+                out.lock().unwrap().push((
+                    format!("max-packet-length-not-enforced:{which}"),
+                    format!("max_packet_length = {max}: a {which} frame declaring {len} bytes was {} (the server went on with {got:?}{})", if granted { "accepted" } else { "not refused" }, if closed { "" } else { ", connection still open" }),
+                    replay,
+                ));
+            } else if !over && !granted {
+                out.lock().unwrap().push((format!("frame-within-limit-refused:{which}"), format!("max_packet_length = {max}: a {which} frame declaring exactly {len} bytes was not taken (the server sent {got:?}, closed: {closed})"), replay));
+            }
+        }
+    }
+    n
+}
+
 /// A client that asks for the (huge) status and does not read: the server's write is blocked when the
 /// deadline passes. Once the client finally reads, it may only find what the kernel had buffered by then,
 /// followed by the end of the stream - not the complete answer, and not a connection that is still open.
@@ -509,8 +618,9 @@ fn run_conf(conf: &Conf, behaviours: &[&str], rep: &Report) -> u64 {
             // run the deadline cases concurrently (each holds its connection for the whole timeout)
             futures_join_all(futs).await;
         };
-        let (x, y, _) = tokio::join!(a, b, ds);
-        n = x + y + behaviours.len() as u64;
+        let l = later_frame_length_cases(addr, conf, &out);
+        let (x, y, _, z) = tokio::join!(a, b, ds, l);
+        n = x + y + z + behaviours.len() as u64;
     });
     // shutdown is requested while connections are in flight (one silent, one stalled after Login Start): they keep
     // their own deadline - closed no later than timeout (+ allowance) after they were accepted, not later because
